@@ -3,6 +3,8 @@
 (plus any extra property given), undo it, and report which check caught it.
 
   tools/run_seeded.py [id ...] [--props C01,C08] [--tier quick]
+  --worktree=DIR  apply to a scratch git worktree of /repo at DIR instead (checks run with VERIF_REPO=DIR,
+                  evidence of those runs goes to DIR/.verif_evidence): leaves /repo free for other work.
 Never leaves /repo modified (git checkout -- . after every mutant)."""
 import json
 import os
@@ -23,7 +25,17 @@ def main():
     opts = dict(a[2:].split("=", 1) for a in sys.argv[1:] if a.startswith("--") and "=" in a)
     ids = args or sorted(x for x in os.listdir(os.path.join(HERE, "seeded")) if not x.startswith("_"))
     tier = opts.get("tier", "quick")
-    assert sh("git -C /repo status --porcelain --untracked-files=no").stdout.strip() == "", "/repo is not clean"
+    global REPO
+    env = dict(os.environ)
+    if opts.get("worktree"):
+        REPO = opts["worktree"]
+        if not os.path.isdir(REPO):
+            assert sh(f"git -C /repo worktree add --detach {REPO} HEAD").returncode == 0
+        else:
+            sh(f"git -C {REPO} checkout -q --detach $(git -C /repo rev-parse HEAD)")
+        env["VERIF_REPO"] = REPO
+        env["VERIF_EVIDENCE_DIR"] = os.path.join(REPO, ".verif_evidence")
+    assert sh(f"git -C {REPO} status --porcelain --untracked-files=no").stdout.strip() == "", f"{REPO} is not clean"
     results = {}
     for mid in ids:
         d = os.path.join(HERE, "seeded", mid)
@@ -45,7 +57,7 @@ def main():
             out = {}
             for p in props:
                 t = time.time()
-                c = sh(f"./check {p} --tier {tier}", cwd=HERE)
+                c = sh(f"./check {p} --tier {tier}", cwd=HERE, env=env)
                 viol = [l for l in c.stdout.splitlines() if l.startswith("VIOLATION")]
                 out[p] = {"exit": c.returncode, "violations": len(viol), "first": (viol[0] if viol else ""), "wall": round(time.time() - t, 1),
                           "summary": next((l for l in c.stdout.splitlines() if l.startswith(p + " tier")), "")[:200]}
@@ -53,8 +65,9 @@ def main():
         finally:
             sh(f"git -C {REPO} checkout -- .")
         print(mid, json.dumps(results[mid])[:600], flush=True)
-    assert sh("git -C /repo status --porcelain --untracked-files=no").stdout.strip() == "", "/repo left dirty!"
-    with open(os.path.join(HERE, "seeded", "last_run.json"), "w") as fd:
+    assert sh(f"git -C {REPO} status --porcelain --untracked-files=no").stdout.strip() == "", f"{REPO} left dirty!"
+    out_name = opts.get("out", "last_run.json")
+    with open(os.path.join(HERE, "seeded", out_name), "w") as fd:
         json.dump(results, fd, indent=1)
     print("caught:", sum(1 for r in results.values() if r.get("caught")), "of", len(results))
 
